@@ -553,7 +553,14 @@ def ptflow(run, fx, rule='ASSOCDOM'):
     if len(idx) != 1 or idx[0] >= len(e['args']):
         run.broken(rule, inst, 'the passtype parameter of Machine::Code::Code was not found', rr.loc(e))
         return
-    given = rr.strip_all_casts(rr.N(e['args'][idx[0]]))
+    def through_consts(fn, n):
+        n = fn.strip_all_casts(n)
+        k = 0
+        while n.get('k') == 'DeclRefExpr' and n.get('vid') in fn.const_init and k < 8:
+            n = fn.strip_all_casts(fn.N(fn.const_init[n['vid']]))        # a `const passtype kind = pt;` local is the parameter under another name
+            k += 1
+        return n
+    given = through_consts(rr, rr.N(e['args'][idx[0]]))
     if not (given.get('k') == 'DeclRefExpr' and given.get('pi') is not None and rr.render(given) == prr):
         run.violated(rule, inst, rr.loc(e), 'Pass::readRules constructs the rule action\'s code with the pass type `%s`, not with the type of the pass being read (`%s`): the loader\'s refusal of INSERT / '
                      'DELETE in positioning and justification passes never sees such a pass -- a font can delete or insert slots after associateChars, and the char-infos then point at slots that '
@@ -565,7 +572,7 @@ def ptflow(run, fx, rule='ASSOCDOM'):
         return
     c = calls[0]
     k = [j for j, p in enumerate(rr.f.get('params') or []) if p.get('n') == prr][0]
-    a = rp.strip_all_casts(rp.N(c['args'][k]))
+    a = through_consts(rp, rp.N(c['args'][k]))
     if not (a.get('k') == 'DeclRefExpr' and a.get('pi') is not None and rp.render(a) == prp):
         run.violated(rule, inst, rp.loc(c), 'Pass::readPass calls readRules with the pass type `%s`, not its own `%s`' % (rp.render(a), prp))
         return
